@@ -55,6 +55,7 @@ HILL = "SteepestDescentSubsetHillClimber"
 SHILL = "SortingSteepestDescentSubsetHillClimber"
 HILL_RS = HILL + "[RandomState]"          # same class, rng is a numpy.random.RandomState
 HIST = "[setters]"                         # suffix: the problem object is reached through a setter history
+REUSED = "[reused]"                        # suffix: the optimiser object has minimised a sibling problem before
 
 
 def _dg(*parts):
@@ -114,7 +115,11 @@ def opair_table(n, u):
 
 def constraints(kind, n):
     d = {}
-    if kind == "oineq":          # order-dependent: position-weighted knapsack
+    if kind == "slack":          # SIGNED slack (distinct, possibly negative values among feasible decisions) + a signed
+        #                            equality residual inside pymoo's 1e-4 tolerance: every returned row has its own G/H values
+        d["ineq"] = [dict(w=[1, 2, 3, 4, 5, 6][:n], cap=100, signed=True)]
+        d["eq"] = [dict(w=[3, 1, 4, 1, 5, 9][:n], target=2, scale=2.0 ** -17)]
+    elif kind == "oineq":          # order-dependent: position-weighted knapsack
         d["ineq"] = [dict(w=[2, 0, 1, 0, 1, 2][:n], cap=1, pw=POSW)]
     elif kind == "ineq":
         d["ineq"] = [dict(w=[1, 0, 1, 0, 1, 0][:n], cap=1)]
@@ -148,6 +153,20 @@ def subset_spec(seed, n, k, scores, okind="sep", wt=1.0, con="none", scores2=Non
     return sp
 
 
+# 'long descent' family: hand-searched pair-interaction tables over n = 8..9 candidates for which steepest descent needs
+# >= k+2 exchanges from some starts (max 4 / 5 / 7 exchanges): t[i][j] = ((a*i*i + b*i*j + c*j) mod m) - m//2 for i < j
+LONG = ((8, 2, (3, 4, 1, 9)), (8, 3, (0, 5, 4, 11)), (9, 3, (4, 1, 2, 11)))
+LONG_LABELS = [[3, 7, 1, 9, 4, 6, 12, 10, 15], [10, 11, 12, 13, 14, 15, 16, 17, 18], [5, 2, 8, 0, 6, 1, 11, 14, 13]]
+
+
+def long_spec(seed, n, k, par):
+    a, b, c, m = par
+    u = UNIT[seed % 3]
+    t = [[0.0 if i == j else u * float(((a * min(i, j) ** 2 + b * min(i, j) * max(i, j) + c * max(i, j)) % m) - m // 2)
+          for j in range(n)] for i in range(n)]
+    return dict(kind="subset", cand=LONG_LABELS[seed % 3][:n], k=k, obj=[dict(s=[0.0] * n, pair=t)], obj_wt=[1.0])
+
+
 def hist_spec(spec):
     """a deliberately different problem of the same encoding and number of objectives: the starting point of a setter
     history that ends in `spec`"""
@@ -167,6 +186,25 @@ def hist_spec(spec):
         lo, hi = [a - 2.0 for a in spec["lo"]], [b + 3.0 for b in spec["hi"]]
     return dict(kind=spec["kind"], lo=lo, hi=hi, obj=[dict(a=[0.0] * d, t=[0.0] * d, b=[1.0 + j] * d) for j in range(nobj)],
                 obj_wt=[-w for w in spec.get("obj_wt", [1.0] * nobj)])
+
+
+def sibling_spec(spec):
+    """a problem of EQUAL dimensions (n, k / box size, nobj, constraint counts) but different candidate labels / bounds and
+    different objective data: what a reused optimiser object must not confuse with `spec`"""
+    import copy
+    sp = copy.deepcopy(spec)
+    if spec["kind"] == "subset":
+        sp["cand"] = [c + 20 for c in reversed(spec["cand"])]
+        for o in sp["obj"]:
+            o["s"] = list(reversed(o["s"]))
+    else:
+        if spec["kind"] != "binary":
+            one = 1 if spec["kind"] == "integer" else 1.5
+            sp["lo"] = [a + one for a in spec["lo"]]
+            sp["hi"] = [b + one for b in spec["hi"]]
+        for o in sp["obj"]:
+            o["b"] = [-v + 0.5 for v in o["b"]]
+    return sp
 
 
 def public_mismatch(prob, spec):
@@ -191,6 +229,7 @@ def public_mismatch(prob, spec):
 # shards
 def shards(tier, seed):
     out = []
+    out += [("L1long", n, k, par) for n, k, par in LONG]
     out += _l1_shards(tier, seed)
     out += _l2_shards(tier, seed)
     out += _l3_shards(tier, seed)
@@ -261,6 +300,8 @@ def _l1_shards(tier, seed):
                 pl, step = (sp, target // 2) if a == SORT else (probs, per if a == HILL else target // 2)
                 for i in range(0, len(pl), step):
                     out.append(("L1", a + HIST, n, k, pl[i:i + step]))
+                    if n <= 3 or a != HILL:
+                        out.append(("L1", a + REUSED, n, k, pl[i:i + step]))
     return out
 
 
@@ -277,6 +318,11 @@ def l1_run(ctx, algo, spec, answers=None):
     """All executions of one (algorithm, problem): every answer of the initial draw."""
     hist = None
     tagx = ""
+    reused = algo.endswith(REUSED)
+    if reused:
+        algo = algo[:-len(REUSED)]
+        tagx = REUSED
+        sib = R.build(sibling_spec(spec))
     if algo.endswith(HIST):
         algo = algo[:-len(HIST)]
         hist = hist_spec(spec)
@@ -316,6 +362,12 @@ def l1_run(ctx, algo, spec, answers=None):
             opt = cls()
         try:
             with R.global_stream_tripwire():
+                if reused:      # same optimiser object, first a sibling problem (equal dimensions, other labels / data)
+                    if algo == HILL:
+                        opt.rng = ScriptedGenerator(R.InitialDrawHandler(Chooser(())))
+                    opt.minimize(sib)
+                    if algo == HILL:
+                        opt.rng = ScriptedGenerator(h)
                 soln = opt.minimize(prob)
             err = None
         except Exception as e:  # handed to guard below
@@ -349,6 +401,8 @@ def l1_run(ctx, algo, spec, answers=None):
             ctx.flag("L1:order-dependent")
         if hist is not None:
             ctx.flag("L1:setter-history")
+        if reused:
+            ctx.flag("L1:reused-optimiser")
         if h.seen:
             ctx.flag("L1:init-replace" if h.seen[0][2] else "L1:init-noreplace")
         if ctx.evaluations % 7919 == 1 and soln is not None:
@@ -745,9 +799,13 @@ def _vec_spec(kind, lo, hi, multi, con, seed):
         sp["eq"] = [dict(w=[1.0] * d, target=float(int((tot_lo + tot_hi) // 2)))]
     elif con == "infeasible":
         sp["ineq"] = [dict(w=[1.0] * d, cap=tot_lo - 1.0)]
+    elif con == "slack":         # signed slack, always feasible, distinct per decision; signed equality residual < 1e-4
+        sp["ineq"] = [dict(w=[1.0 + i for i in range(d)], cap=100.0, signed=True)]
+        sp["eq"] = [dict(w=[2.0 - i for i in range(d)], target=0.5, scale=2.0 ** -17)]
     return sp
 
 
+REUSE = "reuse:"           # tag prefix: one optimiser object minimises sibling(B), B, sibling(B) in turn
 SETTERS = "setters:"      # tag prefix: the problem object is reached through a setter history (see hist_spec)
 
 
@@ -811,6 +869,18 @@ def l3_problems(seed, kind, multi, tier):
                 out.append((f"{kind} lo{lo} hi{hi} {con}", _vec_spec(kind, lo, hi, multi, con, seed)))
         hist = [(f"{kind} lo{lo} hi{hi} {con}", _vec_spec(kind, lo, hi, multi, con, seed)) for (lo, hi), con in hist]
     out += [(SETTERS + tag, sp) for tag, sp in hist]
+    # signed slack / signed equality residual: every returned row carries its own constraint values
+    if kind == "subset":
+        out.append(sub(4, 2, "slack", v[0]))
+        if T:
+            out.append(sub(5, 3, "slack", "order"))
+        reuse = [sub(4, 2, "none", v[0])] + ([sub(5, 3, "ineq", v[1])] if T else [])
+    else:
+        box = {"real": ([-1.0, 0.0], [2.0, 0.5]), "integer": ([-1, 0], [2, 1]), "binary": ([0, 0, 0], [1, 1, 1])}[kind]
+        out.append((f"{kind} lo{box[0]} hi{box[1]} slack", _vec_spec(kind, box[0], box[1], multi, "slack", seed)))
+        reuse = [(f"{kind} lo{box[0]} hi{box[1]} none", _vec_spec(kind, box[0], box[1], multi, "none", seed))]
+    # ONE optimiser object used for sibling(B), B, sibling(B): problems of equal dimensions, different labels / bounds / data
+    out += [(REUSE + tag, sp) for tag, sp in reuse]
     return out
 
 
@@ -840,7 +910,19 @@ def pinned_generators(pin):
         numpy.random.set_state(state)
 
 
-def l3_run(ctx, cname, tag, spec, ps, ng, pin):
+def l3_seq_run(ctx, cname, tag, spec, ps, ng, pin):
+    """one optimiser object, three problems of equal dimensions in a row; every result is judged against ITS problem"""
+    import importlib
+    modn, kind, multi, extra = GA_CLASSES[cname]
+    cls = getattr(importlib.import_module(f"pybrops.opt.algo.{modn}"), cname)
+    opt = cls(ngen=ng, pop_size=ps, **extra)
+    sib = sibling_spec(spec)
+    for step, sp in enumerate((sib, spec, sib)):
+        l3_run(ctx, cname, tag, sp, ps, ng, pin + step, opt=opt, seq=(spec, step))
+    ctx.flag(f"L3:reused-optimiser:{cname}")
+
+
+def l3_run(ctx, cname, tag, spec, ps, ng, pin, opt=None, seq=None):
     import importlib
     modn, kind, multi, extra = GA_CLASSES[cname]
     mod = importlib.import_module(f"pybrops.opt.algo.{modn}")
@@ -867,6 +949,8 @@ def l3_run(ctx, cname, tag, spec, ps, ng, pin):
         seen["none"] = res.X is None
         return res
     case = dict(layer="L3", cls=cname, tag=tag, spec=spec, pop_size=ps, ngen=ng, pin=pin)
+    if seq is not None:      # replay re-runs the whole sequence on a fresh optimiser object
+        case = dict(layer="L3", cls=cname, tag=tag, spec=seq[0], pop_size=ps, ngen=ng, pin=pin - seq[1], step=seq[1])
     ctx.evaluations += 1
     ctx.transitions += 1
     ctx.count(f"L3:runs:{cname}")
@@ -876,7 +960,7 @@ def l3_run(ctx, cname, tag, spec, ps, ng, pin):
         mod.minimize = spy              # observation only: was pymoo's result empty (no feasible individual)?
     try:
         with pinned_generators(pin), contextlib.redirect_stdout(sink):
-            soln = cls(ngen=ng, pop_size=ps, **extra).minimize(prob)
+            soln = (opt if opt is not None else cls(ngen=ng, pop_size=ps, **extra)).minimize(prob)
     except Exception as e:
         err = e
     finally:
@@ -902,6 +986,12 @@ def l3_run(ctx, cname, tag, spec, ps, ng, pin):
             ctx.flag(f"L3:front>1:{cname}")
         if spec.get("ineq") or spec.get("eq"):
             ctx.flag(f"L3:constrained-returned:{kind}")
+        try:
+            if soln.nsoln > 1 and len({tuple(r) for r in numpy.asarray(soln.soln_ineqcv).tolist()}) > 1 \
+                    and float(numpy.min(soln.soln_ineqcv)) < 0 and len({tuple(r) for r in numpy.asarray(soln.soln_eqcv).tolist()}) > 1:
+                ctx.flag(f"L3:distinct-signed-constraint-rows:{cname}")
+        except Exception:
+            pass
         if ctx.evaluations % 97 == 1:
             ctx.sample(dict(layer="L3", cls=cname, problem=tag, pop_size=ps, ngen=ng, pin=pin,
                             decisions=soln.soln_decn, obj=soln.soln_obj, ineqcv=soln.soln_ineqcv))
@@ -971,6 +1061,8 @@ def run_shard(spec, ctx):
         "L1_order_and_history": "plus, for every (n, k>=2): order-dependent objectives {position weights, non-symmetric table over "
               "consecutive positions} x {none, position-weighted ineq, both}; setter histories (problem reached through the "
               "public setters from a different problem) for all problems with n<=3 and (n,k)=(4,2)",
+        "L1_long_descent": "3 hand-searched pair-interaction problems with n=8..9, k=2..3 whose steepest descent needs >= k+2 "
+                           "exchanges; every initial draw",
         "L1_exhaustive": True,
         "L2": f"set space n<={6 if T else 5} (memetic operators n<=5), k<=min(n,3) plus k==n (<=4); parents = all ordered "
               "k-subsets (quick, n=5,k=3: sorted/reversed order for the first parent); every answer of numpy.random.choice/"
@@ -987,6 +1079,16 @@ def run_shard(spec, ctx):
         _, algo, n, k, probs = spec
         for ok, cn, vec in probs:
             l1_run(ctx, algo, l1_spec(ctx.seed, n, k, ok, cn, vec))
+    elif layer == "L1long":
+        _, n, k, par = spec
+        sp = long_spec(ctx.seed, n, k, par)
+        ref = R.build(sp)
+        longest = max(R.ref_descent_steps(ref, st, sp["cand"]) for st in itertools.permutations(sp["cand"], k))
+        if longest >= k + 2:
+            ctx.flag(f"L1:long-descent:k{k}")
+        ctx.count("L1:long-descent:max-exchanges", longest)
+        for a in (HILL, SHILL, HILL + REUSED):
+            l1_run(ctx, a, sp)
     elif layer == "L2":
         for op, n, k, land, plist, par in spec[1]:
             sp = int_spec(n, k) if op in (ISBX, IPM) else l2_problem(ctx.seed, n, k, land)
@@ -996,8 +1098,10 @@ def run_shard(spec, ctx):
         _, cname, probs, hyp, seeds = spec
         for tag, sp in probs:
             for ps, ng in hyp:
+                if tag.startswith(REUSE) and (ps, ng) not in ((4, 2), (8, 1)):
+                    continue             # the reuse sequences use two hyper-parameter settings (3 runs each)
                 for pin in seeds:
-                    l3_run(ctx, cname, tag, sp, ps, ng, pin)
+                    (l3_seq_run if tag.startswith(REUSE) else l3_run)(ctx, cname, tag, sp, ps, ng, pin)
 
 
 def finalize(ctx, tier, seed):
@@ -1031,7 +1135,12 @@ def finalize(ctx, tier, seed):
             assert f"L3:order-dependent:{cname}" in ctx.flags, cname
     for kind in ("real", "integer"):
         assert f"L3:negative-upper-bound:{kind}" in ctx.flags, kind
-    for f in ("L1:order-dependent", "L1:setter-history", "L2:negative-upper-bound"):
+    for cname, (modn, kind, multi, extra) in GA_CLASSES.items():
+        assert f"L3:reused-optimiser:{cname}" in ctx.flags, cname
+        if multi:
+            assert f"L3:distinct-signed-constraint-rows:{cname}" in ctx.flags, cname
+    for f in ("L1:order-dependent", "L1:setter-history", "L1:reused-optimiser", "L2:negative-upper-bound",
+              "L1:long-descent:k2", "L1:long-descent:k3"):
         assert f in ctx.flags, f
     for a in (HILL, SORT, SHILL):
         assert c.get(f"L1:exec:{a}{HIST}", 0) > 0, a
@@ -1051,7 +1160,10 @@ def replay(case, ctx):
             par["umenu"] = tuple(par["umenu"])
             l2_run(ctx, case["op"], case["spec"], case["parents"], par, answers=case["answers"])
         elif case["layer"] == "L3":
-            l3_run(ctx, case["cls"], case["tag"], case["spec"], case["pop_size"], case["ngen"], case["pin"])
+            if case["tag"].startswith(REUSE):
+                l3_seq_run(ctx, case["cls"], case["tag"], case["spec"], case["pop_size"], case["ngen"], case["pin"])
+            else:
+                l3_run(ctx, case["cls"], case["tag"], case["spec"], case["pop_size"], case["ngen"], case["pin"])
     except ReplayDivergence:
         # the recorded environment answers do not exist on this tree (e.g. the draw is now without replacement):
         # the recorded execution is unreachable here, hence no violation to report
